@@ -261,7 +261,7 @@ def validator_cases(ctx):
 
     def add(fam, group, exp, f, F, checks=True, eps=E, n=N):
         out.append({"family": fam, "group": group if checks else "validation off", "expected": exp if checks else "accept",
-                    "f": f, "F": F, "checks": checks, "eps": eps, "n": n})
+                    "f": f, "F": F, "checks": checks, "eps": eps, "n": n, "use_lookup": len(out) % 3 == 1})
 
     # ---- corpus: the designed pairs
     one, ident = poly(1), poly(0, 1)
@@ -410,7 +410,8 @@ def run_impl_pulse(c):
     if float(c["eps"]) != Pulse.epsilon or c["n"] != Pulse.check_n_points:
         cls = type("PulseCfg", (Pulse,), {"epsilon": float(c["eps"]), "check_n_points": c["n"]})
     try:
-        p = cls(pulse=c["f"], parametrization=c["F"], perform_checks=c["checks"])
+        # use_lookup only tells the integrator to use its table: validation must not depend on it
+        p = cls(pulse=c["f"], parametrization=c["F"], perform_checks=c["checks"], use_lookup=bool(c.get("use_lookup", False)))
         if p.get_pulse() is not c["f"] or p.get_parametrization() is not c["F"]:
             return {"err": "harness", "msg": "getters do not return the callables"}
         return {"ok": None}
@@ -811,8 +812,14 @@ def main(ctx):
             c["eps"], c["n"] = eps_src, n_src
     reqs, impl, vfails, skipped, hist, quad_worst = [], [], [], 0, {}, 0.0
     kept = []
-    def mono_tol(c):                                        # the slack the source uses, expressed for this case's eps
-        return Fraction(0) if tol_src == 0 else (tol_src if c["eps"] == eps_src else c["eps"] ** 2 if tol_src == eps_src ** 2 else tol_src)
+    import ast as _ast
+    from gen import pulse as _gp
+    _ex = _gp.Extractor(_ast.parse(open(os.path.join(core.REPO, _gp.SRC), encoding="utf-8").read())) if ir else None
+
+    def mono_tol(c):                                        # the slack expression of the source, evaluated at this case's eps
+        if _ex is None or tol_src == 0:
+            return Fraction(0)
+        return tol_src if c["eps"] == eps_src else Fraction(_ex.mono_tolerance(c["eps"]))
     for c in vcases:
         c["tol"] = mono_tol(c)
         ref, margin = exact_reference(c["f"], c["F"], c["checks"], c["eps"], c["n"], c["tol"])
@@ -1070,7 +1077,8 @@ def validator_replay(c, what, same_class=()):
     if "smooth" in c:
         return {"kind": "smooth-pair", "name": c["smooth"], "expected": "accept", "failure": what, "same_class": list(same_class)}
     return {"kind": "validator", "family": c["family"], "expected": c["expected"], "f": c["f"].json(), "F": c["F"].json(),
-            "checks": c["checks"], "eps": fs(c["eps"]), "n": c["n"], "failure": what, "same_class": list(same_class)}
+            "checks": c["checks"], "eps": fs(c["eps"]), "n": c["n"], "use_lookup": bool(c.get("use_lookup", False)), "failure": what,
+            "same_class": list(same_class)}
 
 
 # =========================================================================================== replay
@@ -1089,7 +1097,7 @@ def replay(ctx, path):
         return 1 if "raised" in rp.get("failure", "") or "rejects" in rp.get("failure", "") else 0
     if kind == "validator":
         c = {"f": PW(rp["f"]["breaks"], rp["f"]["polys"]), "F": PW(rp["F"]["breaks"], rp["F"]["polys"]), "checks": rp["checks"],
-             "eps": Fraction(rp["eps"]), "n": rp["n"]}
+             "eps": Fraction(rp["eps"]), "n": rp["n"], "use_lookup": rp.get("use_lookup", False)}
         r = run_impl_pulse(c)
         ok = ("ok" in r) == (rp["expected"] == "accept") and (rp["expected"] == "accept" or r.get("err") == "AssertionError")
         print(f"family {rp['family']}: implementation {r}; the property demands: {rp['expected']}; oracle:", "holds" if ok else "fails")
